@@ -659,3 +659,20 @@ func dispatchTable(fn *ssa.Function, candidates []int64) map[int64][]*ssa.Functi
 	}
 	return out
 }
+
+// movedInto: a call accepted by pred that is not in fn itself but in a same-package helper fn calls (depth 2): the
+// construct a rule is anchored on was moved out of the analysed function. Rules that are intraprocedural by design
+// report this as undecided — they cannot tell a correct extraction from a broken one — never as a violation.
+func movedInto(fn *ssa.Function, pred func(ci ssa.CallInstruction) bool) *ssa.Function {
+	for _, g := range closureFuncs(fn, 2) {
+		if g == fn {
+			continue
+		}
+		for _, ci := range allCalls(g) {
+			if pred(ci) {
+				return g
+			}
+		}
+	}
+	return nil
+}
